@@ -311,7 +311,9 @@ func (d *dec) denseLinks(o *Object, fheapAddr, nameBT, corderBT uint64) {
 	if bt.recSize != 11 {
 		d.fail("B-tree v2 at 0x%x (link name index of %s): record size %d, expected 11 for type 5", d.abs(nameBT), o.Path, bt.recSize)
 	}
-	if fh.idLen != 7 {
+	if fh.idLen == 8 && 1+fh.offBytes+fh.lenBytes <= 7 {
+		d.deviate("link-fheap-id-length-8", "fractal heap at 0x%x (links of %s): heap ID length 8; the link name index stores 7-byte heap IDs, so the heap of a group must use 7-byte IDs", d.abs(fheapAddr), o.Path)
+	} else if fh.idLen != 7 {
 		d.fail("fractal heap at 0x%x (links of %s): heap ID length %d, expected 7", d.abs(fheapAddr), o.Path, fh.idLen)
 	}
 	var prevHash uint32
@@ -321,7 +323,7 @@ func (d *dec) denseLinks(o *Object, fheapAddr, nameBT, corderBT uint64) {
 		hash := le32(r[:4])
 		id := r[4:11]
 		body, at := fh.object(d, id, fmt.Sprintf("link name index record #%d of %s", i, o.Path))
-		l := d.decodeLink(body, at)
+		l := d.decodeLink(body, at, true)
 		if got := checksum([]byte(l.Name)); got != hash {
 			d.fail("B-tree v2 at 0x%x (link name index of %s): record #%d stores hash 0x%08x, lookup3 of the link name %q is 0x%08x", d.abs(nameBT), o.Path, i, hash, l.Name, got)
 		}
